@@ -271,6 +271,16 @@ struct Explorer {
 	void checkC04(const Node& node, Exec& x);
 	void checkC13(const Node& node, Exec& x);
 	void checkC09(Runner& r, Exec& x);
+	// can a request to 'dest' be the one that activated 's'? only if s is on the path to dest, below dest, or in another
+	// sub-tree of an orthogonal region on that path (two different prongs of a composite region are never activated by one request)
+	static bool requestReaches(int s, int dest) {
+		if (dest < 0 || dest >= E::N) return false;
+		std::vector<int> pa;
+		for (int t = s; t >= 0; t = E::D(t).parent) pa.push_back(t);
+		for (int t = dest; t >= 0; t = E::D(t).parent)
+			for (int u : pa) if (u == t) return t == s || t == dest || E::D(t).kind == K_ORTHO;
+		return false;
+	}
 	void checkC06(const Node& node, Exec& x);
 	void checkC16(const Node& node, Exec& x);
 	void checkC11(const Node& node, Exec& x);
